@@ -176,6 +176,13 @@ def run(chk, tier):
                 if m:
                     getters.append((m.group(1), m.group(2)))
         bad = []
+        # any other method of the quoted transport view (payload(), packet(), …) depends on how many octets the router chose to quote
+        for b in f['blocks']:
+            t = b['term']
+            if t['k'] == 'call' and not b['cleanup']:
+                m = re.match(r"^trippy_packet::((?:udp|tcp)::\w+Packet|icmpv[46]::(?:\w+::)?\w+Packet)(?:::<'[a-z_]+>)?::(\w+)$", t['resolved'] or t['callee'])
+                if m and not (m.group(2).startswith('get_') or m.group(2) in ('new_view', 'new', 'minimum_packet_size')):
+                    bad.append('%s::%s() (its result depends on how much of the datagram was quoted)' % (m.group(1).split('::')[-1], m.group(2)))
         for ty, fld in getters:
             sp = layout.get('trippy_packet::' + ty, {}).get('fields', {}).get(fld)
             if sp is None or sp[0] + sp[1] > 64:
